@@ -35,6 +35,10 @@ SPEC = dict(
         ("*", "_update_sum", "error_rate"): NUM,
         ("KSWINConfig", "__init__", "seed"): opt(INT),
         ("ECDDWT", "_check_threshold", "control_limit"): NUM,
+        ("*", "__init__", "alpha_d"): NUM, ("*", "__init__", "alpha_w"): NUM,
+        ("*", "_check_mean_increase", "m"): INT, ("*", "_check_mean_decrease", "m"): INT,
+        ("*", "_check_mean_increase", "alpha"): NUM, ("*", "_check_mean_decrease", "alpha"): NUM,
+        ("*", "hoeffding_error_bound", "num_values"): INT, ("*", "update_cut_point", "epsilon_z"): NUM,
     },
     layouts={
         "CUSUM": _cusum_layout("CUSUMConfig"),
@@ -42,9 +46,14 @@ SPEC = dict(
         "GeometricMovingAverage": _cusum_layout("GeometricMovingAverageConfig"),
         "DDM": [("_config", obj("DDMConfig")), ("_num_instances", INT), ("drift", BOOL), ("_additional_vars.error_rate", obj("Mean")),
                 ("_additional_vars.min_error_rate", NUMX), ("_additional_vars.min_std", NUMX), ("_additional_vars.warning", BOOL)],
+        "HDDMA1": [("_config", obj("HDDMAConfig")), ("_num_instances", INT), ("drift", BOOL),
+                   ("_additional_vars.test_type", obj("HoeffdingOneSidedTest")), ("_additional_vars.warning", BOOL)],
+        "HDDMA2": [("_config", obj("HDDMAConfig")), ("_num_instances", INT), ("drift", BOOL),
+                   ("_additional_vars.test_type", obj("HoeffdingTwoSidedTest")), ("_additional_vars.warning", BOOL)],
         "ECDDWT": [("_config", obj("ECDDWTConfig")), ("_num_instances", INT), ("drift", BOOL), ("_additional_vars.p", obj("Mean")),
                    ("_additional_vars.z", obj("EWMA")), ("_additional_vars.warning", BOOL), ("_lambda_div_two_minus_lambda", NUM)],
     },
+    aliases={"HDDMA1": "HDDMA", "HDDMA2": "HDDMA"},  # one class, two layouts: test_type is a One- or a TwoSided test object
     elt={"AccuracyQueue": BOOL},
     ctor_elt={("CircularMean", "CircularQueue"): NUM},
     skip_fields={"name"},
@@ -66,6 +75,7 @@ UNITS = [
     ("STEPDConfig", "__init__"),
     ("DDM", "_update"), ("DDM", "reset"),
     ("ECDDWT", "_update"), ("ECDDWT", "reset"),
+    ("HDDMA1", "_update"), ("HDDMA1", "reset"), ("HDDMA2", "_update"), ("HDDMA2", "reset"),
 ]
 
 # property -> equivalence files compiled against the freshly generated GSrc.v
@@ -75,6 +85,7 @@ EQ = {
     "C19": ["EqStats.v", "EqConfig.v"],
     "C02": ["EqStats.v", "EqCusum.v", "EqSPC.v"],
     "C03": ["EqStats.v", "EqSPC.v"],
+    "C04": ["EqStats.v", "EqHDDM.v"],
 }
 
 
